@@ -324,6 +324,18 @@ pub fn run(sc: &Value) -> Vec<Value> {
                     let r = w.start_file(op["name"].as_str().unwrap_or("f"), o);
                     evs.push(json!({"ev": "ZStart", "sc": id, "large": op["large"].as_bool().unwrap_or(false), "r": rclass(&r)}));
                 }
+                // the same declaration through the other two ways of starting a file entry
+                "start_aligned" | "start_extra" => {
+                    let large = op["large"].as_bool().unwrap_or(false);
+                    let o = FileOptions::default().compression_method(method_of(op["method"].as_u64().unwrap_or(0))).large_file(large);
+                    let name = op["name"].as_str().unwrap_or("f");
+                    let r = if op["op"] == "start_aligned" {
+                        w.start_file_aligned(name, o, op["align"].as_u64().unwrap_or(64) as u16).map(|_| ())
+                    } else {
+                        w.start_file_with_extra_data(name, o).and_then(|_| w.end_extra_data()).map(|_| ())
+                    };
+                    evs.push(json!({"ev": "ZStart", "sc": id, "large": large, "r": rclass(&r)}));
+                }
                 "dir" => {
                     let r = w.add_directory(op["name"].as_str().unwrap_or("d"), FileOptions::default());
                     evs.push(json!({"ev": "ZStart", "sc": id, "large": false, "r": rclass(&r)}));
